@@ -176,19 +176,6 @@ def do_check(args, engine, lanes, prop, master_seed, t_start, ctx):
             log("job: " + canon(j)[:1500])
             return 2
 
-    # determinism slice: re-run some jobs, digests must agree
-    nslice = plan.get("determinism_slice", 8)
-    slice_jobs = [(j, r) for j, r in executed if r.get("status") == "ok" and "digest" in r][:nslice]
-    if slice_jobs:
-        again = lanes.run([j for j, _ in slice_jobs])
-        for (j, r), r2 in zip(slice_jobs, again):
-            if r2.get("digest") != r.get("digest"):
-                log(f"HARNESS-ERROR non-deterministic run digest for job {canon(j)[:300]}: {r.get('digest')} vs {r2.get('digest')}")
-                return 2
-    if args.digests:
-        with open(args.digests, "w") as f:
-            json.dump([r.get("digest") for _, r in executed], f)
-
     # violations: classify, confirm, shrink, write replay files
     known = load_known(prop)
     violations = []
@@ -274,6 +261,22 @@ def do_check(args, engine, lanes, prop, master_seed, t_start, ctx):
         exit_code = 1
     for line in sorted(set(known_lines)):
         print(line, flush=True)
+    # determinism slice: re-run some jobs, digests must agree (only meaningful on a
+    # run without violations: a confirmed, replayed violation stands on its own)
+    nslice = plan.get("determinism_slice", 8)
+    slice_jobs = [(j, r) for j, r in executed if r.get("status") == "ok" and "digest" in r][:nslice]
+    if exit_code != 0:
+        slice_jobs = []
+    if slice_jobs:
+        again = lanes.run([j for j, _ in slice_jobs])
+        for (j, r), r2 in zip(slice_jobs, again):
+            if r2.get("digest") != r.get("digest"):
+                log(f"HARNESS-ERROR non-deterministic run digest for job {canon(j)[:300]}: {r.get('digest')} vs {r2.get('digest')}")
+                return 2
+    if args.digests:
+        with open(args.digests, "w") as f:
+            json.dump([r.get("digest") for _, r in executed], f)
+
 
     wall = time.monotonic() - t_start
     if not args.no_evidence:
